@@ -16,6 +16,7 @@ ASSUMPTIONS = [
     "state is observed through the public parent/children properties only",
 ]
 GATES = [
+    "mon.C01.deep_chain",
     "mon.C01.invariant", "outcome.returned", "outcome.TreeError", "outcome.LoopError", "outcome.TypeError", "outcome.Injected",
     "outcome.RecursionError", "move.between_trees", "histories", "mon.C01.insitu_invariant", "insitu.tests_run", "mon.C01.assertion_switch", "C01.env_unset", "C01.env_1",
 ] + ["faulted." + k for k in (
@@ -51,6 +52,9 @@ def config_monitor(ctx):
 
 def run(ctx):
     config_monitor(ctx)
+    from . import deepchain
+
+    deepchain.run(ctx, "C01")
     E.Engine(ctx, MONITORS, faults=True).run()
     if ctx.shard == 0:
         import sys
@@ -62,4 +66,9 @@ def run(ctx):
 
 
 def replay(ctx, wit):
+    if wit.get("case", {}).get("deep_chain"):
+        from . import deepchain
+
+        ctx.case(("replay",))
+        return deepchain.run(ctx, "C01")
     E.replay(ctx, wit, MONITORS)
